@@ -110,7 +110,8 @@ int xmp_smix_play_instrument(xmp_context opaque, int ins, int note, int vol, int
 		return -XMP_ERROR_STATE;
 	}
 
-	if (chn >= smix->chn || chn < 0 || ins >= mod->ins || ins < 0) {
+	if (chn >= smix->chn || chn < 0 || ins >= mod->ins || ins < 0 ||
+	    note < 0 || note > 255 || vol < 0 || vol > 254) {
 		return -XMP_ERROR_INVALID;
 	}
 
@@ -141,7 +142,8 @@ int xmp_smix_play_sample(xmp_context opaque, int ins, int note, int vol, int chn
 		return -XMP_ERROR_STATE;
 	}
 
-	if (chn >= smix->chn || chn < 0 || ins >= smix->ins || ins < 0) {
+	if (chn >= smix->chn || chn < 0 || ins >= smix->ins || ins < 0 ||
+	    note < 0 || note > 255 || vol < 0 || vol > 254) {
 		return -XMP_ERROR_INVALID;
 	}
 
